@@ -72,7 +72,7 @@ fn main() {
                     for (_, s0) in &r.steps[..n - 1] {
                         let _ = td.q_free(s0);
                     }
-                    let obs = td.run(sql, sch, r.check.ends_with("+cancel"));
+                    let obs = td.run_mode(sql, sch, r.check.contains("+cancel"), r.check.contains("+locks"));
                     if let Some(dv) = &obs.diverged {
                         println!("  schedule diverged: {dv}");
                     }
@@ -156,13 +156,14 @@ fn main() {
     if args.len() >= 3 && args[1] == "thr" {
         // vcheck thr <query> [--setup s]... [--pre N] [--cancel 1] [--threads N] [--wall S]
         let mut shape = vharness::sched::Shape::new("cli", &[], &args[2]);
-        let mut cfg = vharness::thr::ThrCfg { max_dev: 2, max_preempt: 1, wall_cap: std::time::Duration::from_secs(120), exec_cap: u64::MAX, threads: vharness::infra::threads(), with_cancel: false };
+        let mut cfg = vharness::thr::ThrCfg { max_dev: 2, max_preempt: 1, wall_cap: std::time::Duration::from_secs(120), exec_cap: u64::MAX, threads: vharness::infra::threads(), with_cancel: false, fine: false };
         let mut i = 3;
         while i + 1 < args.len() {
             match args[i].as_str() {
                 "--setup" => shape.setup.push(args[i + 1].clone()),
                 "--perrun" => shape.per_run.push(args[i + 1].clone()),
                 "--observe" => shape.observe.push(args[i + 1].clone()),
+                "--fine" => cfg.fine = args[i + 1] == "1",
                 "--pre" => cfg.max_preempt = args[i + 1].parse().unwrap(),
                 "--dev" => cfg.max_dev = args[i + 1].parse().unwrap(),
                 "--cancel" => cfg.with_cancel = args[i + 1] == "1",
